@@ -337,6 +337,9 @@ class Run:
             problems.append("audit: " + "; ".join(bad))
         if not ok:
             problems.append("coq build failed:\n" + log[-3000:])
+            # the models must keep evaluating when a proof breaks: build every model/spec file that still compiles
+            models = [f for f in open(os.path.join(COQ, "_CoqProject")).read().split() if f.startswith(("Model/", "Spec/", "Gen/")) and f.endswith(".v")]
+            sh(["make", "-k", f"-j{NPROC}"] + [m + "o" for m in models], cwd=COQ, timeout=900)
         else:
             if len(blocks) != len(printed):
                 problems.append(f"Print Assumptions output count {len(blocks)} != {len(printed)}")
